@@ -50,8 +50,8 @@ def run():
                     if (not c['kw'] and not c.get('cache'))
                     or (c['ci'] + chk.seed) % 3 == 0]
         else:
-            scens = small[:1500] + list(nc.random_scenarios(
-                rng, 1500, domain=True, nmax=40))
+            scens = small[:800] + list(nc.random_scenarios(
+                rng, 700, domain=True, nmax=32))
     if not chk.args.replay:
         # every other scenario is re-ordered by the real
         # Solver.reorder_particles (all arrays, then the solver's own update)
